@@ -33,7 +33,21 @@ KINDS = ("R2", "R3", "SE2", "SE3")
 
 
 def _alpha(kind, tier, seed):
-    return A.poses(kind, tier, seed)
+    ps = A.poses(kind, tier, seed)
+    # members that agree with other members in exactly ONE coordinate, and headings / rotations that are tiny but not zero
+    g1 = A.T(3, "quick", seed)[1]
+    g2 = A.T(3, "quick", seed)[2]
+    if kind == "R2":
+        ps = ps + [[g1[0], 0.0], [400.0, g2[1]]]
+    elif kind == "R3":
+        ps = ps + [[g1[0], 0.0, g2[2]], [0.0, g1[1], 5.0]]
+    elif kind == "SE2":
+        ps = ps + [[g1[0], 0.0, 0.3], [400.0, -250.0, 3e-7], [1.0, 2.0, -4e-7], [0.0, g2[1], 2.0]]
+    else:
+        tiny = A.unit([2e-7, -3e-7, 1e-7, 1.0])
+        q = A.Q("quick", seed)
+        ps = ps + [[g1[0], 0.0, g2[2]] + q[5], [0.0, g1[1], 5.0] + q[7], [400.0, -250.0, 10.0] + tiny, [0.0, 0.0, g1[2]] + q[6]]
+    return ps
 
 
 def _points(kind, tier, seed):
